@@ -5,7 +5,7 @@ import signal
 
 import envelope as E
 import pipegen as G
-from common import run_model, enc, unbits, same_float, rel_close, is_real_finite
+from common import run_model, enc, unbits, same_float, rel_close, is_real_finite, tie_equal
 
 ID = 'C11'
 LEAN_MODULES = ['Dhlldv.Props.C11']
@@ -112,7 +112,7 @@ def correspondence(ctx):
             ctx.mismatch('model ran out of iteration budget where the implementation returned', describe(p, Q, water), o, list(r))
             continue
         got = [unbits(x) for x in o.split(' ')]
-        if not all(same_float(a, float(b)) for a, b in zip(got, r)):
+        if not all(tie_equal(ctx, a, float(b)) for a, b in zip(got, r)):
             ctx.mismatch('Spec.Pump.point differs from Pump.point', describe(p, Q, water), got, list(r))
     if metas:
         ctx.sample(describe(*metas[0][:3]))
